@@ -67,6 +67,14 @@ def _paths(body: List[ast.stmt], env: Dict[str, object]):
             for e1 in _paths(list(b), dict(env)):
                 yield from _paths(rest, e1)
         return
+    if isinstance(s, ast.Assign) and len(s.targets) == 1 and isinstance(s.targets[0], ast.Tuple) and isinstance(s.value, ast.Tuple) \
+            and len(s.targets[0].elts) == len(s.value.elts) and all(isinstance(t_, ast.Name) for t_ in s.targets[0].elts):
+        e = dict(env)
+        vals_ = [_value(v_, env) for v_ in s.value.elts]
+        for t_, v_ in zip(s.targets[0].elts, vals_):
+            e[t_.id] = v_
+        yield from _paths(rest, e)
+        return
     if isinstance(s, ast.Assign) and len(s.targets) == 1:
         t = s.targets[0]
         e = dict(env)
@@ -85,6 +93,13 @@ def _paths(body: List[ast.stmt], env: Dict[str, object]):
 
 
 def _value(v: ast.AST, env):
+    if isinstance(v, ast.IfExp):
+        dec = _decide(v.test, env)
+        if dec is True:
+            return _value(v.body, env)
+        if dec is False:
+            return _value(v.orelse, env)
+        return "?" + norm1(v, 40)
     if isinstance(v, ast.Name):
         return env.get(v.id, "?" + v.id)
     if isinstance(v, ast.Constant) and v.value is None:
@@ -235,13 +250,20 @@ def run(ctx) -> None:
                     allkeys = True
                 kind, base, idxs = _reindex_form(idx, S, f, st_.value, S.cfg.node(st_))
                 mats.append((f, st_, kind, idxs, allkeys and base in bases))
-            elif isinstance(st_, ast.Assign) and norm(st_.targets[0]) == "self._XX_R" and isinstance(st_.value, ast.DictComp) and len(st_.value.generators) == 1:
+            elif (isinstance(st_, ast.Assign) and norm(st_.targets[0]) == "self._XX_R" and isinstance(st_.value, ast.DictComp) and len(st_.value.generators) == 1) or \
+                    (isinstance(st_, ast.Expr) and isinstance(st_.value, ast.Call) and norm(st_.value.func) == "self._XX_R.update" and len(st_.value.args) == 1
+                     and isinstance(st_.value.args[0], ast.DictComp) and len(st_.value.args[0].generators) == 1):
+                # self._XX_R = {k: f(v) …}  or  self._XX_R.update({k: f(v) …}) over all items: every key gets its re-indexed matrix
+                dc_ = st_.value if isinstance(st_, ast.Assign) else st_.value.args[0]
+                st_ = ast.copy_location(ast.Assign(targets=[ast.Attribute(value=ast.Name(id="self", ctx=ast.Load()), attr="_XX_R", ctx=ast.Store())], value=dc_,
+                                                   lineno=st_.lineno), st_) if not isinstance(st_, ast.Assign) else st_
+                at_dc = S.cfg.node(next(x_ for x_ in stmts(f.node) if x_.lineno == st_.lineno)) if not any(x_ is st_ for x_ in stmts(f.node)) else S.cfg.node(st_)
                 ge = st_.value.generators[0]
                 allkeys = not ge.ifs and norm(ge.iter) == "self._XX_R.items()" and isinstance(ge.target, ast.Tuple) and len(ge.target.elts) == 2 \
                     and norm(st_.value.key) == norm(ge.target.elts[0])
                 bases = {norm(ge.target.elts[1]), f"self._XX_R[{norm(ge.target.elts[0])}]"} if isinstance(ge.target, ast.Tuple) else set()
                 S.keep_names = S.keep_names | {n_.id for n_ in ast.walk(ge.target) if isinstance(n_, ast.Name)}
-                kind, base, idxs = _reindex_form(idx, S, f, st_.value.value, S.cfg.node(st_))
+                kind, base, idxs = _reindex_form(idx, S, f, st_.value.value, at_dc)
                 mats.append((f, st_, kind, idxs, allkeys and base in bases))
         for g, _c, S_g in helper_calls(idx, S):
             for st_ in stmts(g.node):
@@ -293,6 +315,8 @@ def run(ctx) -> None:
     ro = idx.function(RV, "Rvectors.reorder")
     r2.instance(ro.short)
     a = ro.node.args.args
+    from ..sem import inline_private_helpers as _iph5
+    ro = _iph5(idx, ro)
     if [x.arg for x in a] != ["self", "order_left", "order_right"]:
         raise AnalysisError("Rvectors.reorder signature changed")
     npaths = 0
